@@ -75,6 +75,27 @@ func genCompact(prop string, seed uint64, tier string) *Scenario {
 		body.Clients2 = genRestartPhaseClients(r, rb, 1, &uniq)
 		fix(body.Clients2)
 	}
+	if vs := ssched.Sub(seed, "valseq"); vs.Intn(4) == 0 {
+		// drawn from a generator of its own: a run of keys taken one after the other, each with a value,
+		// persisted at once, the first ones for a few seconds only, the later ones for long: by the time
+		// a directory left behind by a dying compaction is started, the values still in force are no
+		// longer the sequence that compaction wrote
+		var ops []OpSpec
+		n := 3 + vs.Intn(4)
+		for i := 0; i < n; i++ {
+			ex := uint16(600)
+			if i < 1+vs.Intn(2) {
+				ex = uint16(2 + vs.Intn(3))
+			}
+			uniq++
+			ops = append(ops, OpSpec{Cmd: 1, Key: 100 + i, Lid: 1, Expried: ex, EFlag: efAof0, Count: 0, DelayMs: vs.Intn(30), Wait: true,
+				Data: &DataSpec{Op: "set", Val: []byte(fmt.Sprintf("seq%d-%d", i, uniq))}})
+		}
+		body.Clients = append(body.Clients, ClientSpec{Kind: "mem", StartMs: 20 + vs.Intn(200), Ops: ops})
+		if len(body.TriggerMs) == 0 {
+			body.TriggerMs = append(body.TriggerMs, 400+vs.Intn(1200))
+		}
+	}
 	for i, n := 0, r.Intn(4); i < n; i++ {
 		body.TriggerMs = append(body.TriggerMs, 300+r.Intn(8000))
 	}
